@@ -306,13 +306,14 @@ contract('gnpy.core.utils.restore_order', trusted=True, props=[],
          note='ASSUMED for one-entry requests: restore_order([e], [0]) == [e] if e is not None else []; bounded check')
 
 RQ1 = obj('<ns>', N=lst(opt(integer())), M=lst(opt(integer())), request_id=string())
-for _po, _oms in (([0], [_A]), ([0, 1], [_A, _B])):
+for (_po, _oms), _pol in [(x, y) for x in (([0], [_A]), ([0, 1], [_A, _B])) for y in ('first_fit', 'last_fit')]:
+    _ptag = '' if _pol == 'first_fit' else ', last fit'
     _freewin = [(f'window_free_on_oms_{k}', f'implies(len(result[0]) == 1, forall(lambda t: old({o}.bitmap)[t] == BitmapValue.FREE, n - m - {o}.n_min, n + m - {o}.n_min))')
                 for k, o in enumerate(_oms)]
     contract('gnpy.topology.spectrum_assignment.compute_n_m',
-             name=f'gnpy.topology.spectrum_assignment.compute_n_m[one (N, M) entry, path over OMS {_po}]', props=['C14'],
+             name=f'gnpy.topology.spectrum_assignment.compute_n_m[one (N, M) entry, path over OMS {_po}{_ptag}]', props=['C14'],
              params={'required_m': integer(), 'rq': RQ1, 'path_oms': const(_po), 'oms_list': lst(OMSB('a'), OMSB('b')),
-                     'per_channel_m': integer(), 'policy': const('first_fit')}, spec=SPEC_AGG,
+                     'per_channel_m': integer(), 'policy': const(_pol)}, spec=SPEC_AGG,
              let={'n': 'result[0][0]', 'm': 'result[1][0]', 'A': _A},
              requires=_REQ2 + [('guard_a', f'GB({_A})'), ('guard_consistent', f'CONSIST({_A})'), ('pcm', 'per_channel_m > 0'), ('required', 'required_m > 0'),
                                ('fixed_m_positive', 'implies(rq.M[0] is not None, rq.M[0] > 0)'),
@@ -329,13 +330,14 @@ for _po, _oms in (([0], [_A]), ([0, 1], [_A, _B])):
 
 RQP = obj('<ns>', N=lst(opt(integer())), M=lst(opt(integer())), request_id=string(), path_bandwidth=real(),
           spacing=real(), bit_rate=real())
-for _po, _oms in (([0], [_A]), ([0, 1], [_A, _B])):
+for (_po, _oms), _pol in [(x, y) for x in (([0], [_A]), ([0, 1], [_A, _B])) for y in ('first_fit', 'last_fit')]:
+    _ptag = '' if _pol == 'first_fit' else ', last fit'
     _pth = lst(*[obj('Fiber', oms_id=const(k), uid=string()) for k in _po])
     _others = [o for o in (_A, _B) if o not in _oms]
     contract('gnpy.topology.spectrum_assignment.pth_assign_spectrum',
-             name=f'gnpy.topology.spectrum_assignment.pth_assign_spectrum[one request, path over OMS {_po}]', props=['C14'],
+             name=f'gnpy.topology.spectrum_assignment.pth_assign_spectrum[one request, path over OMS {_po}{_ptag}]', props=['C14'],
              params={'pths': lst(_pth), 'rqs': lst(RQP), 'oms_list': lst(OMSB('a'), OMSB('b')), 'rpths': lst(lst()),
-                     'policy': const('first_fit')}, spec=SPEC_AGG,
+                     'policy': const(_pol)}, spec=SPEC_AGG,
              let={'rq': 'rqs[0]', 'A': _A, 'blocked': "hasattr(rqs[0], 'blocking_reason')"},
              requires=_REQ2 + [('guard_a', f'GB({_A})'), ('guard_consistent', f'CONSIST({_A})'),
                                ('demand', 'rqs[0].path_bandwidth > 0 and rqs[0].spacing > 0 and rqs[0].bit_rate > 0'),
@@ -406,3 +408,91 @@ contract('gnpy.topology.request.find_elements_common_range', name='gnpy.topology
                                                   "asked['default_spacing'] == si.spacing"),
                   ('no_amplifier_no_amplifier_band', "len(asked['amp_bands']) == 0")],
          use_at_calls=False, modifies=["equipment['ghost_call'][*]"])
+
+# ---------------------------------------------------------------- round 8: the ITU-grid helpers and the last-fit policy
+contract('gnpy.topology.spectrum_assignment.nvalue_to_frequency', props=['C15', 'C14'],
+         params={'nvalue': integer(), 'grid': real()},
+         # G.694.1: central frequency 193.1 THz + n x granularity
+         ensures=[('itu_rule', 'result == 193.1e12 + nvalue * grid')], returns=real(), use_at_calls=False, modifies=[])
+
+contract('gnpy.topology.spectrum_assignment.slots_to_m', props=['C15', 'C14'],
+         params={'startn': integer(), 'stopn': integer()},
+         requires=[('ordered', 'startn <= stopn'), ('whole_slots', '(stopn - startn + 1) % 2 == 0')],
+         # a range of 2m indices startn..stopn is the slot (n, m) with startn = n - m and stopn = n + m - 1
+         ensures=[('centre', '2 * result[0] == startn + stopn + 1'), ('width', '2 * result[1] == stopn - startn + 1')],
+         use_at_calls=False, modifies=[])
+
+H_SLOTS = '''
+def slots_roundtrip(n, m):
+    startn, stopn = mvalue_to_slots(n, m)
+    return slots_to_m(startn, stopn)
+'''
+contract('harness:slots_roundtrip', harness=H_SLOTS, module='gnpy.topology.spectrum_assignment', props=['C15', 'C14'],
+         params={'n': integer(), 'm': integer()},
+         ensures=[('inverse_of_mvalue_to_slots', 'result[0] == n and result[1] == m')], modifies=[])
+
+contract('gnpy.topology.spectrum_assignment.m_to_freq', props=['C15', 'C14'],
+         params={'nvalue': integer(), 'mvalue': integer(), 'grid': real()},
+         ensures=[('start', 'result[0] == 193.1e12 + (nvalue - mvalue) * grid'),
+                  ('stop', 'result[1] == 193.1e12 + (nvalue + mvalue) * grid'),
+                  # m slots of 12.5 GHz = 2m steps of the 6.25 GHz granularity
+                  ('width', 'result[1] - result[0] == 2 * mvalue * grid')],
+         use_at_calls=False, modifies=[])
+
+contract('gnpy.topology.spectrum_assignment.Bitmap.getn', props=['C15'],
+         params={'self': BITMAP, 'i': integer()}, spec=SPEC_BM,
+         requires=[('wf', 'WF(self)'), ('indices', 'WFI(self)'), ('in_range', '0 <= i and i < len(self.freq_index)')],
+         ensures=[('itu_index', 'result == self.n_min + i')], returns=integer(), use_at_calls=False, modifies=[])
+
+H_GETN = '''
+def index_roundtrip(b, nvalue):
+    return b.getn(b.geti(nvalue))
+'''
+contract('harness:index_roundtrip', harness=H_GETN, module='gnpy.topology.spectrum_assignment', props=['C15'],
+         params={'b': BITMAP, 'nvalue': integer()}, spec=SPEC_BM,
+         requires=[('wf', 'WF(b)'), ('indices', 'WFI(b)'), ('on_the_map', 'b.n_min <= nvalue and nvalue <= b.n_max')],
+         ensures=[('geti_getn_inverse', 'result == nvalue')], modifies=[])
+
+contract('gnpy.topology.request.compute_spectrum_slot_vs_bandwidth', props=['C14'],
+         params={'bandwidth': real(), 'spacing': real(), 'bit_rate': real(), 'slot_width': real()},
+         requires=[('positive', 'bandwidth > 0 and spacing > 0 and bit_rate > 0 and slot_width > 0')],
+         let={'nch': 'result[0]', 'm': 'result[1]'},
+         ensures=[('enough_channels', 'nch * bit_rate >= bandwidth and (nch - 1) * bit_rate < bandwidth'),
+                  ('enough_slots', 'm * slot_width >= nch * spacing'),
+                  ('a_whole_number_of_slots_per_channel', 'm % nch == 0 and (m / nch - 1) * slot_width < spacing')],
+         use_at_calls=False, modifies=[])
+
+contract('gnpy.topology.spectrum_assignment.spectrum_selection', name='gnpy.topology.spectrum_assignment.spectrum_selection[free N, last fit]',
+         props=['C14'],
+         params={'test_oms': OMS_A, 'requested_m': integer(), 'requested_n': const(None), 'policy': const('last_fit')},
+         spec=SPEC_SEL2, let={'bm': 'test_oms.spectrum_bitmap'},
+         requires=[('wf', 'WF(bm)'), ('indices', 'WFI(bm)'), ('m', 'requested_m > 0')],
+         ensures=[('triple', 'implies(result[0] is not None, result[1] == result[0] - requested_m and result[2] == result[0] + requested_m - 1)'),
+                  ('window_free', 'implies(result[0] is not None, FREEWIN(bm, result[0] - bm.n_min, requested_m))'),
+                  ('window_inside_guard_bands', 'implies(result[0] is not None, OKWIN(bm, result[0] - bm.n_min, requested_m))'),
+                  # last fit: no feasible window starts above the returned one ...
+                  ('highest_feasible', 'implies(result[0] is not None, forall(lambda s: given([ROOM(bm, s, requested_m), '
+                                       'forall(lambda t: bm.bitmap[t] == BitmapValue.FREE, s, s + 2 * requested_m)], False), '
+                                       'result[1] - bm.n_min + 1, len(bm.bitmap)))'),
+                  ('none_only_if_no_room', 'implies(result[0] is None, forall(lambda s: given([ROOM(bm, s, requested_m), '
+                                           'forall(lambda t: bm.bitmap[t] == BitmapValue.FREE, s, s + 2 * requested_m)], False), '
+                                           'len(bm.bitmap)))')],
+         use_at_calls=False, modifies=[])
+
+for _pol in ('first_fit', 'last_fit'):
+    contract('gnpy.topology.spectrum_assignment.select_candidate', name=f'gnpy.topology.spectrum_assignment.select_candidate[{_pol}]',
+             props=['C14'],
+             params={'candidates': lst(tup(integer(), integer(), integer()), tup(integer(), integer(), integer()),
+                                       tup(integer(), integer(), integer())), 'policy': const(_pol)},
+             let={'c': 'candidates[0]' if _pol == 'first_fit' else 'candidates[2]'},
+             # first fit = the lowest candidate of the (ascending) list, last fit = the highest
+             ensures=[('the_end_of_the_list_the_policy_names', 'result[0] == c[0] and result[1] == c[1] and result[2] == c[2]')],
+             use_at_calls=False, modifies=[])
+contract('gnpy.topology.spectrum_assignment.select_candidate', name='gnpy.topology.spectrum_assignment.select_candidate[nothing to select]',
+         props=['C14'], params={'candidates': lst(), 'policy': string()},
+         ensures=[('no_slot', 'result[0] is None and result[1] is None and result[2] is None')], use_at_calls=False, modifies=[])
+contract('gnpy.topology.spectrum_assignment.select_candidate', name='gnpy.topology.spectrum_assignment.select_candidate[unknown policy]',
+         props=['C14'], params={'candidates': lst(tup(integer(), integer(), integer())), 'policy': string()},
+         raises={'ServiceError': "policy != 'first_fit' and policy != 'last_fit'"},
+         ensures=[('the_candidate', 'result[0] == candidates[0][0] and result[1] == candidates[0][1] and result[2] == candidates[0][2]')],
+         use_at_calls=False, modifies=[])
